@@ -33,6 +33,12 @@ spec objects that were used and then edited in place or copied
 the object came about), and `drv_bind_sequences` / the retry in
 `_check_accept` make sure that binding decides by membership at every attempt
 on the same DNA object (a refusal is final and leaves the DNA unbound).
+`drv_answer_constructors` covers the constructors that assemble the DNA of a
+spec from one answer per decision point (DNA.from_fn: index lists, ready-made
+sub-tree DNAs, raw float/str values; DNA.from_dict: indices or sub-tree DNAs
+keyed by decision point): whatever the answer form and wherever the answered
+decision point sits, they return exactly the member spelled by the answers and
+never a non-member (also run on edited spec objects).
 
 This module is also imported by c12_dna_views.py (model, builders, oracles).
 """
@@ -1733,7 +1739,8 @@ def drv_edited_specs(tier, seed):
              'edit: reported size of every node, full iteration, and (quick: '
              'taking turns) validate/bind of members, of members of the previous spec that '
              'are no longer members and of one-step corruptions, '
-             'from_numbers, random draws, sweeping; at the end of each chain '
+             'from_numbers, random draws, from_fn / from_dict answers '
+             '(a member and one-step edits of it), sweeping; at the end of each chain '
              'the object is copied (clone / deep clone / JSON round trip / '
              'copy.deepcopy in rotation): the copy, the copy after one more '
              'edit, and the original after the copy was edited are checked '
@@ -1793,6 +1800,8 @@ def drv_edited_specs(tier, seed):
                        extra=[('member-before-the-edit', t) for t in stale])
       if not quick or not counter % 2:
         _random_checks(cx, 3 if quick else 8)
+        _from_fn_checks(cx, 1 if quick else 3, 3 if quick else 12)
+        _from_dict_checks(cx, 1 if quick else 3, 2 if quick else 8)
       if len(cx.mem) <= (6 if quick else 36) and (
           not quick or step == steps - 1):
         _sweep_checks(cx, light=quick)
@@ -1928,9 +1937,588 @@ def drv_bind_sequences(tier, seed):
   return rec.result()
 
 
+# =============================================================================
+# Constructors that assemble a DNA for a spec from per-decision-point answers
+# =============================================================================
+# Besides use_spec / DNA(spec=) / from_numbers a DNA is bound to ("built for")
+# a specification by DNA.from_fn(spec, fn) -- fn is asked at every active
+# decision point and answers a Choices with a list of candidate indices *or*
+# with a ready-made DNA for the whole sub-tree, a Float with a float or a DNA,
+# a custom point with a str or a DNA -- and by DNA.from_dict({decision point:
+# index or sub-tree DNA}, spec).  The statement ("binding accepts exactly the
+# members and rejects everything else") gives the oracle, whatever the answer
+# form and wherever the answered decision point sits:
+#   * answers that spell the member t        -> returns exactly t;
+#   * otherwise                              -> ValueError/TypeError, and in
+#     no case a returned DNA that is not a member.
+# The occurrences of decision points in a tree are derived from the model.
+
+
+class Occ:
+  """One active decision point of a tree: model path, sub-model, its node.
+
+  `path` leads to the decision point in the model / in the spec object
+  (('e', i) = elements[i], ('c', i) = candidates[i]); `via` runs parallel to
+  it and holds, for a candidate step below a multi-choice, the position of the
+  choice that picked the candidate (None elsewhere).
+  """
+
+  def __init__(self, path, dp, picks, via=()):
+    self.path, self.dp, self.via = path, dp, via
+    self.kids = []
+    if dp[0] != 'choices':
+      self.node = picks
+      self.answer = ('value', picks[0])
+      return
+    k, cands = dp[1], dp[2]
+    self.node = picks[0] if (k == 1 and len(picks) == 1) else (None, tuple(picks))
+    # ('list', [..]) | ('dna', tree) | ('value', v)
+    self.answer = ('list', [p[0] for p in picks])
+    for j, p in enumerate(picks):
+      i = p[0]
+      if _is_int(i) and 0 <= i < len(cands):
+        self.kids.extend(occ_children(cands[i], p[1], path + (('c', i),),
+                                      via + (j if k > 1 else None,)))
+
+  def walk(self):
+    yield self
+    for kid in self.kids:
+      yield from kid.walk()
+
+
+def _occ_dp(dp, node, path, via):
+  if dp[0] == 'choices':
+    return Occ(path, dp, [node] if dp[1] == 1 else list(node[1]), via)
+  return Occ(path, dp, node, via)
+
+
+def occ_children(space, children, path, via=()):
+  elems = space[1]
+  if not elems:
+    return []
+  if len(elems) == 1:
+    e = elems[0]
+    if e[0] == 'choices' and e[1] > 1:
+      return [_occ_dp(e, (None, tuple(children)), path + (('e', 0),),
+                      via + (None,))]
+    return [_occ_dp(e, children[0], path + (('e', 0),), via + (None,))]
+  return [_occ_dp(e, c, path + (('e', i),), via + (None,))
+          for i, (e, c) in enumerate(zip(elems, children))]
+
+
+def occurrences(m, node):
+  """Top-level occurrences of the (well-formed) tree `node` of model m."""
+  if m[0] != 'space':
+    return [_occ_dp(m, node, (), ())]
+  if len(m[1]) == 1:
+    return occ_children(m, (node,) if node[0] is not None else node[1], ())
+  return occ_children(m, node[1], ())
+
+
+def norm_tree(node):
+  """The tree with trivial nodes (no value, one child) removed; only used to
+  pre-select probes (the verdicts use the shape of the real pg.DNA)."""
+  v, ch = node[0], tuple(norm_tree(c) for c in node[1])
+  if len(ch) == 1 and ch[0][0] is None:
+    ch = ch[0][1]
+  if v is None and len(ch) == 1:
+    v, ch = ch[0]
+  return (v, ch)
+
+
+def dict_key_of(spec, o):
+  """(live key, its source text) of an occurrence for DNA.from_dict: the
+  decision points below a multi-choice are those of its sub-choice specs."""
+  expr = 'spec'
+  for (t, i), j in zip(o.path, o.via):
+    if t == 'e':
+      spec, expr = spec.elements[i], f'{expr}.elements[{i}]'
+    else:
+      if j is not None:
+        spec, expr = spec.subchoice(j), f'{expr}.subchoice({j})'
+      spec, expr = spec.candidates[i], f'{expr}.candidates[{i}]'
+  return spec, expr
+
+
+def model_at(m, path):
+  for t, i in path:
+    m = m[1][i] if t == 'e' else m[2][i]
+  return m
+
+
+def live_at(spec, path):
+  for t, i in path:
+    spec = spec.elements[i] if t == 'e' else spec.candidates[i]
+  return spec
+
+
+def occ_position(m, path):
+  """Where a decision point sits (decides which level checks the result)."""
+  if not any(t == 'c' for t, _ in path):
+    return 'root' if (m[0] != 'space' or len(m[1]) == 1) else 'root-element'
+  holder = model_at(m, path[:-1])
+  return 'nested-sole' if len(holder[1]) == 1 else 'nested-element'
+
+
+def plan_of(tops):
+  """[(path, answer)] in depth-first order; a DNA answer covers its sub-tree."""
+  out = []
+
+  def rec(o):
+    out.append((o.path, o.answer))
+    if not (o.answer[0] == 'dna' and o.dp[0] == 'choices'):
+      for kid in o.kids:
+        rec(kid)
+  for o in tops:
+    rec(o)
+  return out
+
+
+FN_SRC = (
+    'q = {}\n'
+    'for p, a in ans:\n'
+    "  q.setdefault(id(eval('spec.' + p) if p else spec), []).append(a)\n"
+    'def fn(dp):\n'
+    '  l = q.get(id(dp))\n'
+    '  if l: return l.pop(0)\n'
+    '  return (list(range(dp.num_choices)) if dp.is_categorical else\n'
+    "          dp.min_value if dp.is_numerical else 'a')\n")
+
+
+def _answer_obj(a):
+  return mk(a[1]) if a[0] == 'dna' else (list(a[1]) if a[0] == 'list' else a[1])
+
+
+def _answer_src(a):
+  return dsrc(a[1]) if a[0] == 'dna' else repr(
+      list(a[1]) if a[0] == 'list' else a[1])
+
+
+def run_from_fn(spec, plan):
+  """(rejected?, text, returned tree or None) of DNA.from_fn under a plan."""
+  env = {'spec': spec, 'ans': [(path_attr(p), _answer_obj(a)) for p, a in plan]}
+  exec(FN_SRC, env)  # pylint: disable=exec-used
+  box = []
+  rej, text = raises(lambda: box.append(pg.DNA.from_fn(spec, env['fn'])))
+  return rej, text, (shape(box[0]) if box else None)
+
+
+def plan_src(plan):
+  return ('ans = [' + ', '.join(
+      f'({path_attr(p)!r}, {_answer_src(a)})' for p, a in plan) + ']\n' + FN_SRC)
+
+
+def fresh_children(space, r):
+  """Children tuple of some member of a candidate sub-space."""
+  if not is_finite(space) or count_members(space) <= 200:
+    return r.choice(space_children(space))
+  elems = space[1]
+  nodes = [r.choice(dp_nodes_sampled(e, r)) for e in elems]
+  if len(elems) == 1:
+    return nodes[0][1] if nodes[0][0] is None else (nodes[0],)
+  return tuple(nodes)
+
+
+def dp_nodes_sampled(dp, r):
+  """One random node of a (large) decision point, as a 1-element list."""
+  if dp[0] != 'choices':
+    return [r.choice(dp_nodes(dp))]
+  _, k, cands, distinct, srt, _, _ = dp
+  t = r.choice(index_tuples(len(cands), k, distinct, srt))
+  picks = [(i, fresh_children(cands[i], r)) for i in t]
+  return [picks[0] if k == 1 else (None, tuple(picks))]
+
+
+def index_list_reason(dp, lst):
+  """Why the index list `lst` cannot be the decision of Choices dp (or None)."""
+  _, k, cands, distinct, srt, _, _ = dp
+  if len(lst) != k:
+    return 'wrong-number-of-choices'
+  for v in lst:
+    if not _is_int(v):
+      return 'index-wrong-type'
+    if v < 0:
+      return 'negative-index'
+    if v >= len(cands):
+      return 'index-too-large'
+  if distinct and len(set(lst)) != k:
+    return 'duplicate-choices'
+  if srt and any(lst[i] > lst[i + 1] for i in range(k - 1)):
+    return 'unsorted-choices'
+  return None
+
+
+def index_list_edits(dp, base):
+  """One-step edits of the index list `base` of Choices dp."""
+  n = len(dp[2])
+  out = [base[:-1], base + [base[-1]], base + [0], [], base[::-1]]
+  for i, v in enumerate(base):
+    for nv in (-1, -n, n, n + 2, v + 1, v - 1, float(v), str(v), None):
+      out.append(base[:i] + [nv] + base[i + 1:])
+    for nv in range(n):
+      out.append(base[:i] + [nv] + base[i + 1:])
+  seen, res = set(), []
+  for lst in out:
+    key = tuple((type(v).__name__, v) for v in lst)
+    if key not in seen and lst != base:
+      seen.add(key)
+      res.append(lst)
+  return res
+
+
+# Non-members that validate() is known to accept (known_findings.json,
+# validate/reject/value-on-*-container); from_fn documents that it validates.
+FROM_FN_KNOWN = ('value-on-multi-choice-container', 'value-on-space-container')
+
+
+def _stratified(r, pool, n):
+  """Up to n items of {class: [items]}, classes taking turns."""
+  pool = {k: list(v) for k, v in pool.items()}
+  out = []
+  while len(out) < n and any(pool.values()):
+    for k in sorted(pool, key=str):
+      if pool[k] and len(out) < n:
+        out.append((k, pool[k].pop(r.randrange(len(pool[k])))))
+  return out
+
+
+def _from_fn_case(cx, cid, key, plan, want_tree, must_accept, what):
+  """Runs one plan and records the verdict demanded by the statement."""
+  m = cx.m
+  rej, text, got = run_from_fn(cx.spec, plan)
+  crash = _last_error[0]
+  psrc = plan_src(plan)
+  if must_accept:
+    ok = (not rej and got is not None and accepts(m, got)
+          and (want_tree is None or tkey(got) == tkey(want_tree)))
+    msg = (f'{what}: from_fn ' + (f'raised {text}' if rej else f'returned {got!r}')
+           + (f', want {want_tree!r}' if want_tree is not None else
+              ', want a member'))
+    body = psrc + 'r = D.from_fn(spec, fn)\nspec.validate(r)\n' + (
+        f'assert r == {dsrc(want_tree)}, r' if want_tree is not None else '')
+  else:
+    ok = (rej and not crash) or (not rej and got is not None
+                                 and accepts(m, got))
+    msg = (f'{what}: from_fn '
+           + (f'is not refused with ValueError but crashes: {crash}' if crash
+              else f'returned the non-member {got!r} ({why_not(m, got)})'
+              if got is not None else text))
+    body = psrc + ('try: r = D.from_fn(spec, fn)\n'
+                   'except (ValueError, TypeError): pass\n'
+                   'else: raise AssertionError(f"returned {r!r} for answers '
+                   'that do not spell a member")')
+  cx.rec.case(cx.cid(cid), (cx.label, key), ok, msg, cx.wit(body))
+
+
+def _picks_of(o):
+  """Index list spelled by the node of a Choices occurrence."""
+  return [o.node[0]] if o.node[0] is not None else [c[0] for c in o.node[1]]
+
+
+def _all_occ(tops):
+  return [o for top in tops for o in top.walk()]
+
+
+def _sub_reason(dp, actual):
+  """Reason why `actual` is no decision of dp; 'known' for the known finding
+  (a value on an otherwise right multi-choice container)."""
+  reason = why_not_dp(dp, actual)
+  if reason in FROM_FN_KNOWN:
+    reason = why_not_dp(dp, (None, actual[1])) or 'known'
+  return reason
+
+
+def _from_fn_checks(cx, n_members, n_bad):
+  """DNA.from_fn over every answer form x position of the answered point."""
+  m, r = cx.m, cx.r
+  mem = [t for t in cx.mem if not touches_custom_children(m, t)]
+  pick = mem if len(mem) <= n_members else r.sample(mem, n_members) if (
+      n_members < 3) else (
+          [mem[0], mem[-1]] + r.sample(mem[1:-1], n_members - 2))
+  nmax = max([len(x[2]) for x in _all_choices(m)] or [1])
+  for t in pick:
+    base = occurrences(m, t)
+    allo = _all_occ(base)
+    cats = [o for o in allo if o.dp[0] == 'choices']
+    leaves = [o for o in allo if o.dp[0] != 'choices']
+    # ---- answers that spell the member t, in every form ------------------
+    _from_fn_case(cx, 'from_fn/accept-member/index-answers', (t, 'lists'),
+                  plan_of(base), t, True, f'index lists spelling {t!r}')
+    by_pos = {}
+    for o in cats:
+      by_pos.setdefault(occ_position(m, o.path), []).append(o)
+    for pos in sorted(by_pos):
+      o = r.choice(by_pos[pos])
+      o.answer = ('dna', o.node)
+      _from_fn_case(cx, f'from_fn/accept-member/dna-answer@{pos}',
+                    (t, o.path), plan_of(base), t, True,
+                    f'sub-tree DNA {o.node!r} at spec.{path_attr(o.path)}, '
+                    f'index lists elsewhere, spelling {t!r}')
+      o.answer = ('list', _picks_of(o))
+    if leaves:
+      for o in leaves:
+        o.answer = ('dna', o.node)
+      _from_fn_case(cx, 'from_fn/accept-member/dna-answer@float-or-custom',
+                    (t, 'leaves'), plan_of(base), t, True,
+                    f'DNA answers at float/custom points spelling {t!r}')
+    if len(cats) > 1:
+      for o in allo:
+        if r.random() < 0.5:
+          o.answer = ('dna', o.node)
+        elif o.dp[0] != 'choices':
+          o.answer = ('value', o.node[0])
+      _from_fn_case(cx, 'from_fn/accept-member/mixed-answers', (t, 'mixed'),
+                    plan_of(base), t, True,
+                    f'a mix of sub-tree DNAs and index lists spelling {t!r}')
+  # ---- answers near a member -------------------------------------------
+  pool = {}
+  for t in (pick if len(pick) <= 3 else r.sample(pick, 3)):
+    for oi, o in enumerate(_all_occ(occurrences(m, t))):
+      pos = occ_position(m, o.path)
+      form = 'dna' if o.dp[0] == 'choices' else o.dp[0] + '-dna'
+      for kind, c in corruptions(o.node, nmax):
+        pre = _sub_reason(o.dp, norm_tree(c))     # pre-selection only
+        if pre == 'known':
+          continue
+        # a sub-tree DNA that is a one-step corruption of the right one
+        pool.setdefault((form, pos, pre), []).append((t, oi, ('dna', c), kind))
+        if o.dp[0] != 'choices' and not c[1]:
+          pool.setdefault((o.dp[0] + '-value', pos, pre), []).append(
+              (t, oi, ('value', c[0]), kind))
+      if o.dp[0] == 'choices':
+        # an index list that is a one-step edit of the right one
+        for lst in index_list_edits(o.dp, _picks_of(o)):
+          pool.setdefault(('index', pos, index_list_reason(o.dp, lst)),
+                          []).append((t, oi, ('list', lst), 'index-list-edit'))
+  for (form, pos, _), (t, oi, answer, kind) in _stratified(r, pool, n_bad):
+    base = occurrences(m, t)
+    o = _all_occ(base)[oi]
+    if answer[0] == 'list':
+      reason = index_list_reason(o.dp, answer[1])
+      # sub-decisions below the edited list: fresh members of the candidates
+      picks = [(i, fresh_children(o.dp[2][i], r)
+                if _is_int(i) and 0 <= i < len(o.dp[2]) else ())
+               for i in answer[1]]
+      new = Occ(o.path, o.dp, picks, o.via)
+      o.kids, o.node = new.kids, new.node
+    elif answer[0] == 'dna':
+      try:
+        answer = ('dna', shape(mk(answer[1])))    # as the constructor has it
+      except Exception:  # pylint: disable=broad-except
+        continue
+      reason = _sub_reason(o.dp, answer[1])
+      if reason == 'known' or touches_custom_children(m, answer[1]):
+        continue
+    else:
+      reason = why_not_dp(o.dp, (answer[1], ()))
+    o.answer = answer
+    what = (f'{form} answer {answer[1]!r} at spec.{path_attr(o.path)} '
+            f'(edit: {kind}; the other answers spell {t!r})')
+    if reason is None:
+      _from_fn_case(cx, f'from_fn/accept-member/edited-{form}-answer',
+                    (t, o.path, repr(answer)), plan_of(base), None, True, what)
+    else:
+      # A ready-made DNA is checked as a whole (one id per position, the
+      # violated constraint is in the message); index lists and raw values
+      # are checked constraint by constraint.
+      cid = f'from_fn/reject/{form}-answer@{pos}'
+      if answer[0] != 'dna':
+        cid += '/' + reason
+      _from_fn_case(cx, cid, (t, o.path, repr(answer)), plan_of(base), None,
+                    False, f'{what}, violating: {reason}')
+
+
+# ---- DNA.from_dict: {decision point: index | sub-tree DNA} -----------------
+
+
+def _dict_entries(spec, tops, dna_at=None):
+  """[(key expression, live key, value)] spelled by the occurrences; the picks
+  of occurrence `dna_at` are given as sub-tree DNAs, all others as indices."""
+  out = []
+
+  def rec(o):
+    live, expr = dict_key_of(spec, o)
+    if o.dp[0] != 'choices':
+      out.append((expr, live, ('value', o.node[0])))
+      return
+    picks = [o.node] if o.node[0] is not None else list(o.node[1])
+    many = o.dp[1] > 1
+    for j, p in enumerate(picks):
+      out.append((expr + (f'.subchoice({j})' if many else ''),
+                  live.subchoice(j) if many else live,
+                  ('dna', p) if o is dna_at else ('value', p[0])))
+    if o is not dna_at:
+      for kid in o.kids:
+        rec(kid)
+  for top in tops:
+    rec(top)
+  return out
+
+
+def _from_dict_case(cx, cid, key, entries, want_tree, what):
+  m, spec = cx.m, cx.spec
+  d = {k: (mk(v[1]) if v[0] == 'dna' else v[1]) for _, k, v in entries}
+  box = []
+  rej, text = raises(lambda: box.append(pg.DNA.from_dict(d, spec)))
+  crash = _last_error[0]
+  got = shape(box[0]) if box else None
+  dsrc_ = '{' + ', '.join(
+      f'{e}: {dsrc(v[1]) if v[0] == "dna" else repr(v[1])}'
+      for e, _, v in entries) + '}'
+  if want_tree is not None:
+    ok = not rej and got is not None and tkey(got) == tkey(want_tree)
+    msg = (f'{what}: from_dict ' + (f'raised {text}' if rej else
+                                    f'returned {got!r}') + f', want {want_tree!r}')
+    body = f'r = D.from_dict({dsrc_}, spec)\nassert r == {dsrc(want_tree)}, r'
+  else:
+    ok = (rej and not crash) or (got is not None and accepts(m, got))
+    msg = (f'{what}: from_dict '
+           + (f'is not refused with ValueError but crashes: {crash}' if crash
+              else f'returned the non-member {got!r} ({why_not(m, got)})'
+              if got is not None else text))
+    body = (f'try: r = D.from_dict({dsrc_}, spec)\n'
+            'except (ValueError, TypeError): pass\n'
+            'else: raise AssertionError(f"returned {r!r} for decisions that '
+            'do not spell a member")')
+  cx.rec.case(cx.cid(cid), (cx.label, key), ok, msg, cx.wit(body))
+
+
+# Non-member that use_spec (the last step of from_dict) is known to accept
+# (known_findings.json, bind/reject/float-with-children).
+FROM_DICT_KNOWN = ('float-with-children',)
+
+
+def _from_dict_checks(cx, n_members, n_bad):
+  """DNA.from_dict keyed by decision point: members and one-step edits."""
+  m, r, spec = cx.m, cx.r, cx.spec
+  mem = [t for t in cx.mem if not touches_custom_children(m, t)]
+  pick = mem if len(mem) <= n_members else r.sample(mem, n_members)
+  nmax = max([len(x[2]) for x in _all_choices(m)] or [1])
+  pool = {}
+  for t in pick:
+    base = occurrences(m, t)
+    entries = _dict_entries(spec, base)
+    _from_dict_case(cx, 'from_dict/accept-member/index-values', (t, 'index'),
+                    entries, t, f'indices spelling {t!r}')
+    cats = [o for o in _all_occ(base) if o.dp[0] == 'choices']
+    if cats:
+      o = r.choice(cats)
+      _from_dict_case(cx, 'from_dict/accept-member/dna-values', (t, o.path),
+                      _dict_entries(spec, base, o), t,
+                      f'sub-tree DNAs at spec.{path_attr(o.path)} spelling {t!r}')
+    for i, e in enumerate(entries):
+      pool.setdefault(('missing-decision',), []).append(
+          (t, entries[:i] + entries[i + 1:], f'no entry for {e[0]}'))
+    for o in cats:
+      picks = _picks_of(o)
+      ents = _dict_entries(spec, base, o)      # o's picks as sub-tree DNAs
+      live = dict_key_of(spec, o)[0]
+      one = CH(1, o.dp[2])
+      for j, v in enumerate(picks):
+        key = live.subchoice(j) if o.dp[1] > 1 else live
+        at_i = next(i for i, e in enumerate(entries) if e[1] is key)
+        at_d = next(i for i, e in enumerate(ents) if e[1] is key)
+        expr, node = ents[at_d][0], ents[at_d][2][1]
+        for nv in [-1, len(o.dp[2]), len(o.dp[2]) + 2] + [
+            x for x in range(len(o.dp[2])) if x != v]:
+          reason = index_list_reason(o.dp, picks[:j] + [nv] + picks[j + 1:])
+          if reason is None:
+            continue        # a member again, given other sub-decisions
+          pool.setdefault(('index-value', reason), []).append(
+              (t, entries[:at_i] + [(expr, key, ('value', nv))]
+               + entries[at_i + 1:], f'index {nv} at {expr}'))
+          pool.setdefault(('dna-value', reason), []).append(
+              (t, ents[:at_d] + [(expr, key, ('dna', (nv, node[1])), (one, reason))]
+               + ents[at_d + 1:], f'sub-tree DNA at {expr} with index {nv}'))
+        for kind, c in corruptions(node, nmax):
+          reason = why_not_dp(one, norm_tree(c))
+          if (reason is None or reason in FROM_DICT_KNOWN
+              or touches_custom_children(m, c)):
+            continue
+          pool.setdefault(('dna-value', reason), []).append(
+              (t, ents[:at_d] + [(expr, key, ('dna', c), (one, None))]
+               + ents[at_d + 1:],
+               f'sub-tree DNA at {expr} edited ({kind})'))
+  for cls, (t, ents, what) in _stratified(r, pool, n_bad):
+    edited = [i for i, e in enumerate(ents) if len(e) == 4]
+    if edited:
+      # classify by the DNA as the constructor has it
+      expr, key, (_, c), (one, among) = ents[edited[0]]
+      try:
+        actual = shape(mk(c))
+      except Exception:  # pylint: disable=broad-except
+        continue
+      # `among`: the constraint among the choices of a multi-choice that the
+      # index of this sub-tree violates (duplicate, out of order)
+      reason = why_not_dp(one, actual) or among
+      if (reason is None or reason in FROM_DICT_KNOWN
+          or touches_custom_children(m, actual)):
+        continue
+      ents = list(ents)
+      ents[edited[0]] = (expr, key, ('dna', actual))
+      cls = ('dna-value',)
+      what += f': {actual!r}, violating: {reason}'
+    _from_dict_case(cx, 'from_dict/reject/' + '/'.join(cls), (t, what), ents,
+                    None, f'{what}; the other entries spell {t!r}')
+
+
+def _answer_specs(tier, r):
+  flat_ = [leaf(3), leaf(1), leaf(3, 2, True, False), leaf(3, 2, True, True),
+           leaf(3, 2, False, False), leaf(3, 2, False, True),
+           leaf(2, 3, False, True), leaf(3, 3, True, False)]
+  specs = [SP(x) for x in flat_] + flat_[:4]
+  specs += handpicked_roots() + infinite_roots()
+  extra = single_point_roots() + conditional_family(
+      [2, 3], [1, 2], [C, S2, SM, S22, SN, SF], 200)
+  fixed = len(specs)
+  specs += r.sample(extra, 6 if tier == 'quick' else 150)
+  return fixed, specs
+
+
+def drv_answer_constructors(tier, seed):
+  """from_fn / from_dict return exactly the members, for every answer form."""
+  quick = tier == 'quick'
+  rec = Recorder(
+      PROP, 'DNA.from_fn / DNA.from_dict build exactly the members',
+      scope=('specs: bare and space-wrapped leaf choices of every '
+             'distinct/sorted combination, the hand-picked conditional / '
+             'multi-element / deep specs, float/custom specs, '
+             f'{6 if quick else 150} seeded specs with single-point and '
+             'conditional candidate sub-spaces; per spec '
+             f'{3 if quick else 10} members (first, last, seeded). from_fn: '
+             'the callback spells the member with index lists everywhere, '
+             'with a ready-made sub-tree DNA at one Choices of each position '
+             '(root or sole element of the root space / one of several root '
+             'elements / sole or one of several elements of a candidate '
+             'sub-space), with DNAs at float/custom points, with a seeded mix; '
+             f'then {12 if quick else 80} one-step edits per spec, stratified '
+             'by (answer form, position, violated constraint): the sub-tree '
+             'DNA of one decision point corrupted (value/children edits), or '
+             'its index list edited (arity, range, type, duplicates, order; '
+             'sub-decisions answered with fresh members), or a float/custom '
+             'answer corrupted, raw or as DNA; from_dict keyed by decision '
+             'point (sub-choice) objects with index or sub-tree DNA values: '
+             f'member dicts and {5 if quick else 40} one-step edits (entry '
+             'dropped, index out of range / repeated / out of order, '
+             'corrupted sub-tree DNA). Verdict: answers spelling a member '
+             'return exactly it; anything else is refused with '
+             'ValueError/TypeError or at least never returns a non-member'))
+  r = rng(seed, 'c11.answers')
+  t0 = time.process_time()
+  budget_s = 14 if quick else 500
+  fixed, specs = _answer_specs(tier, r)
+  for i, m in enumerate(specs):
+    if i >= fixed and time.process_time() - t0 > budget_s:
+      break          # only the seeded sample is ever cut short (CPU time)
+    cx = Cx(rec, m, r, tier)
+    _from_fn_checks(cx, 3 if quick else 10, 12 if quick else 80)
+    _from_dict_checks(cx, 2 if quick else 6, 5 if quick else 40)
+  return rec.result()
+
+
 DRIVERS = [drv_space_size, drv_iteration, drv_membership,
            drv_random_and_sweeping, drv_single_point_subspaces,
-           drv_edited_specs, drv_bind_sequences]
+           drv_edited_specs, drv_bind_sequences, drv_answer_constructors]
 
 
 def replay(rec):
